@@ -13,8 +13,8 @@ import (
 
 // Obligation is one decided instance of a rule.
 type Obligation struct {
-	ID        string `json:"id"`   // rule id, e.g. C01.1
-	Key       string `json:"key"`  // rule | function | construct  (never a line number)
+	ID        string `json:"id"`  // rule id, e.g. C01.1
+	Key       string `json:"key"` // rule | function | construct  (never a line number)
 	Func      string `json:"func"`
 	Construct string `json:"construct"`
 	Rule      string `json:"rule"`
